@@ -49,3 +49,33 @@ def handleText (toks : List String) : Option String :=
   | _ => none
 
 end GoatSpec.Drv
+
+namespace GoatSpec.Drv
+open GoatSpec GoatSpec.Proto
+
+def rtrim (l : Line) : Line := (l.reverse.dropWhile isWs).reverse
+
+/-- canonical form of a file's lines for the file-level streams: trimmed, blank lines and
+    `import …` lines dropped (go/printer re-indents and the import edit is recorded separately) -/
+def canonLines (ls : List Line) : List Line :=
+  ((ls.map (fun l => rtrim (ltrim l))).filter (fun l => !l.isEmpty)).filter
+    (fun l => !("import ".toList.isPrefixOf l))
+
+/-- final state of the tracking import after the recorded actions -/
+def applyImports (present : Bool) (acts : List ImportAct) : Bool :=
+  acts.foldl (fun p a => match a with | .add => true | .delete => false | .keep => p) present
+
+def handleTextFile (toks : List String) : Option String :=
+  match toks with
+  -- cleanfile <lines…>  →  <changed> <canonical lines…>     (CleanExecutor.prepareContent)
+  | "cleanfile" :: ls =>
+    let p := cleanLines (ls.map decodeTok)
+    some s!"{b2s p.1} {encodeLines (canonLines p.2)}"
+  -- patchfile <isMain> <import present> <lines…> → not-updated | <changed> <import present after> <canonical lines…>
+  | "patchfile" :: m :: imp :: ls =>
+    let p := patchLines (m == "1") (ls.map decodeTok)
+    if !p.updated then some "not-updated"
+    else some s!"{b2s p.changed} {b2s (applyImports (imp == "1") p.imports)} {encodeLines (canonLines p.lines)}"
+  | _ => none
+
+end GoatSpec.Drv
